@@ -507,7 +507,7 @@ def shards(tier: str):
         for i, plan in enumerate(plans):
             for mode in ("sync", "async"):
                 add(f"exchange/{kind}/plan{i}/{mode}", "exchange", dict(kind=kind, plan=plan, mode=mode), cost=3 ** sum(n for _, n in plan))
-            if kind in ("sepincr", "toycomp", "line-CRLF") and (i in (0, 3) or not quick):
+            if kind in ("sepincr", "toycomp", "line-CRLF") and (i in (0, 2, 3) or not quick):  # plan 2 starts with an empty packet
                 for mode in ("udpclient", "audpclient"):
                     add(f"exchange/{kind}/plan{i}/{mode}", "exchange", dict(kind=kind, plan=plan, mode=mode), cost=6 ** sum(n for _, n in plan))
     for pre in range(3):
